@@ -57,7 +57,7 @@ func (c19) Rule() string {
 }
 
 var c19Queries = []string{"write-fasta", "write-phylip", "write-phylip-strict", "write-nexus", "write-clustal", "write-stockholm", "write-paml", "stats", "consensus", "entropy-pssm", "profile",
-	"distmatrix", "mldist", "pwalign", "longest-orf", "unalign", "transpose", "bootstrap", "conservation", "diffs", "mutlist", "string", "translate-copy", "identical", "ref-sites", "split", "phase"}
+	"distmatrix", "mldist", "pwalign", "longest-orf", "unalign", "transpose", "bootstrap", "conservation", "diffs", "mutlist", "string", "translate-copy", "identical", "ref-sites", "split", "phase", "sequences-list"}
 var c19Copies = []string{"clone", "clone-seqbag", "sub-align", "select-sites", "seq-clone", "rand-sub-align"}
 var c19Mutations = []string{"revcomp-some", "diff-with-first", "set-char", "replace-char", "revcomp", "to-lower", "to-upper", "mask", "replace", "mutate", "write-through-seq-clone", "grow"}
 
@@ -143,6 +143,17 @@ func snapObj(p *poolObj) string {
 	s := snapshotAlign(p.bag)
 	if al, ok := p.bag.(align.Alignment); ok {
 		s += fmt.Sprintf("L=%d", al.Length())
+	}
+	// the list of rows as Sequences() hands it out: the same rows in the same order
+	for i, q := range p.bag.Sequences() {
+		nm, _ := p.bag.GetSequenceNameById(i)
+		sq, _ := p.bag.GetSequenceById(i)
+		if q == nil || q.Name() != nm || q.Sequence() != sq {
+			s += fmt.Sprintf("\nSequences()[%d] is not row %d", i, i)
+		}
+	}
+	if k := len(p.bag.Sequences()); k != p.bag.NbSequences() {
+		s += fmt.Sprintf("\nSequences() has %d entries", k)
 	}
 	return s
 }
@@ -320,6 +331,22 @@ func (c19) Run(ctx *Ctx, ci interface{}) (o Outcome) {
 				_ = s.NumGaps()
 				_ = s.NumGapsFromStart()
 				_ = s.NumGapsFromEnd()
+			}
+		case "sequences-list":
+			// the list of rows the object hands out, edited by the caller: reversed, an entry overwritten, emptied
+			isQuery = true
+			{
+				l := t.bag.Sequences()
+				for i, j := 0, len(l)-1; i < j; i, j = i+1, j-1 {
+					l[i], l[j] = l[j], l[i]
+				}
+				if len(l) > 1 && op.Flag {
+					l[0] = l[len(l)-1]
+				}
+				if op.N%3 == 0 && len(l) > 0 {
+					l = append(l[:0], l[len(l)-1])
+				}
+				_ = l
 			}
 		case "string":
 			isQuery = true
